@@ -284,7 +284,7 @@ def getaxes_broadcast(obj, indices):
 
         # ...else use a list of tuples
         else:
-            values = list(zip(*[obj.axes[i].values[indices2[i]] for i in array_ix_pos]))
+            values = list(zip(*[obj.axes[i].values[indices2[i]].tolist() for i in array_ix_pos]))
             name = ",".join([obj.axes[i].name for i in array_ix_pos])
 
         broadcastaxis = Axis(values, name)
